@@ -252,15 +252,17 @@ theorem opUnref_covers {cur : Replica} (hn : IdsNodup cur) {d : Defects} (hd : d
     obtain ⟨hm, hid, hent⟩ := findNode_some ho
     simp only [hd, Bool.false_eq_true, ↓reduceIte]
     split
-    · apply covers_of_parts
-      intro k hk
-      simp only [List.mem_cons, List.not_mem_nil, or_false, not_or] at hk
-      refine ⟨rfl, rfl, ?_⟩
-      show part nKey (·.sig) (replaceNode _ cur.nodes) k = _
-      apply replace_part hn hm
-      · rfl
-      · intro e; apply hk.2; rw [e]; simp [nKey, kNode, hent]
-      · intro e; apply hk.1; rw [e]; simp [nKey, kNode, hent]
+    · split
+      · apply covers_of_parts
+        intro k hk
+        simp only [List.mem_cons, List.not_mem_nil, or_false, not_or] at hk
+        refine ⟨rfl, rfl, ?_⟩
+        show part nKey (·.sig) (replaceNode _ cur.nodes) k = _
+        apply replace_part hn hm
+        · rfl
+        · intro e; apply hk.2; rw [e]; simp [nKey, kNode, hent]
+        · intro e; apply hk.1; rw [e]; simp [nKey, kNode, hent]
+      · exact covers_refl _ _
     · split
       · exact covers_refl _ _
       · apply covers_of_parts
@@ -338,7 +340,7 @@ theorem effectOf_log (d : Defects) (w : World) (cur : Replica) (p : Nat) (op : W
     split
     · rfl
     · split
-      · rfl
+      · split <;> rfl
       · split <;> rfl
   | del row dsig =>
     simp only [effectOf, opDel]
